@@ -356,7 +356,7 @@ func (c ProgCfg) plantOutput(r *Rand, doc any) (any, string) {
 }
 
 func (c ProgCfg) plantEncode(r *Rand, doc any) (any, string) {
-	enc := any(r.Pick("base64", "json", "yaml", "json-pretty", "sha256", "values", "tolist:=", "flags", "toml"))
+	enc := any(r.Pick("base64", "json", "yaml", "json-pretty", "sha256", "values", "values", "tolist:=", "tolist:=", "flags", "flags", "toml"))
 	if r.Chance(0.2) {
 		enc = []any{"tolist:=", r.Pick("join:,", "prefix:--", "json")}
 	}
@@ -456,7 +456,15 @@ func (c ProgCfg) plantEscape(r *Rand, doc any) (any, string) {
 		}
 		h := PickAny(r, ms)
 		v, _ := Get(doc, h)
-		v.(map[string]any)[r.Pick("$$k", "$$merge", "$$$$", "a$$", "$$$", "$A", "$$A")] = c.Tree.Scalar(r)
+		m := v.(map[string]any)
+		if r.Chance(0.4) {
+			// two keys that are equal once unescaped
+			pair := [][2]string{{"$$A", "$A"}, {"$$$", "$$$$"}, {"x$$$y", "x$$y"}, {"$$$$B", "$$B"}}[r.Intn(4)]
+			m[pair[0]] = c.Tree.Scalar(r)
+			m[pair[1]] = differentFrom(r, c.Tree, m[pair[0]])
+			return doc, "escape-key-collision"
+		}
+		m[r.Pick("$$k", "$$merge", "$$$$", "a$$", "$$$", "$A", "$$A")] = c.Tree.Scalar(r)
 		return doc, "escape-key"
 	}
 	ps := keyPositions(doc, isScalar)
@@ -501,4 +509,14 @@ func (c ProgCfg) plantBad(r *Rand, doc any) (any, string) {
 		m["$value"] = c.Tree.Scalar(r)
 	}
 	return doc, "bad"
+}
+
+func differentFrom(r *Rand, c TreeCfg, v any) any {
+	for i := 0; i < 8; i++ {
+		n := c.Scalar(r)
+		if n != v {
+			return n
+		}
+	}
+	return "other"
 }
